@@ -1,7 +1,7 @@
 (* Property C08 -- non-linear and total least-squares fits obey the implicit-function rule.  Theorems only. *)
 From Coq Require Import ZArith QArith Reals List Bool.
 From Interval Require Import Interval.Interval Real.Xreal Real.Xreal_derive.
-From PV Require Import Base.QAux Base.RI Base.Expr Base.ExprFold Base.Dyadic Base.DyadicR Lin.Mat Fit.Implicit Fit.ImplicitSound Fit.ImplicitTop Fit.TableSound Fit.ElimSound.
+From PV Require Import Base.QAux Base.RI Base.Expr Base.ExprFold Base.Dyadic Base.DyadicR Lin.Mat Fit.Implicit Fit.ImplicitSound Fit.ImplicitTop Fit.TableSound Fit.ElimSound Fit.TlsTop.
 Import ListNotations.
 
 (* the symbolic partial derivative used for gradient, Hessian and mixed derivatives of chi^2 IS the real derivative:
@@ -99,6 +99,25 @@ Theorem fluctuation_table_has_one_row_per_replica_and_configuration :
   exists n c, In n (Obs.Derived.sample_names (u_obs ++ d_obs)) /\ In c (Obs.Derived.union_cfgs (u_obs ++ d_obs) n) /\ xs = table_row u_obs d_obs n c.
 Proof. exact fluct_table_rows. Qed.
 
+(* Top level for total least squares (fitted abscissae without result observables): a positive verdict implies, for every parameter's
+   equation and every table row, that a real linear combination of the real differentiated stationarity equations -- one that lies in
+   their span and has exactly vanishing coefficients for all hidden unknowns -- holds for the implementation's fluctuations within tolerance *)
+Theorem positive_verdict_with_hidden_unknowns :
+  forall (c : icase) (i : nat) (xs : list (dy * dy)) (xrs : list R),
+  (ic_nv c < ic_nu c)%nat -> length (ic_eqs c) = ic_nu c -> implicit_ok c = true -> (0 <= dR (fst (dexact (ic_rt c))))%R ->
+  (i < ic_nv c)%nat ->
+  In xs (dfluct_table (ic_uobs c) (ic_dobs c)) -> Forall2 enclx xs xrs ->
+  let l := (ic_uvals c ++ ic_dvals c)%list in
+  let cols := seq 0 (ic_nu c + length (ic_dvals c)) in
+  let RR := map (fun eq => map (dval l eq) cols) (ic_eqs c) in
+  let hidden := seq (ic_nv c) (ic_nu c - ic_nv c) in
+  exists rr scale,
+    (forall h, In h hidden -> nth h rr 0%R = 0%R)
+    /\ (forall z, Forall (fun R0 => rdot R0 z = 0%R) RR -> rdot rr z = 0%R)
+    /\ (Rabs (rsum (firstn (ic_nv c) rr ++ skipn (ic_nu c) rr) xrs)
+        <= dR (fst (dexact (ic_rt c))) * (rasum (firstn (ic_nv c) rr ++ skipn (ic_nu c) rr) xrs + dR scale))%R.
+Proof. exact implicit_ok_hidden_sound. Qed.
+
 (* Non-vacuity: chi^2 of y = p0 exp(-p1 x) on two points, its symbolic gradient is not trivial and evaluates to a finite interval *)
 Example c08_example :
   let fe := EMul (EV 0) (EExp (ENeg (EMul (EV 1) (EV 2)))) in
@@ -115,3 +134,4 @@ Print Assumptions differentiated_equation_decision_is_sound.
 Print Assumptions interval_elimination_is_sound.
 Print Assumptions positive_verdict_implies_the_differentiated_equations.
 Print Assumptions fluctuation_table_rows_enclose_the_weighted_fluctuations.
+Print Assumptions positive_verdict_with_hidden_unknowns.
